@@ -139,6 +139,7 @@ theorem completed_reported_once (c : Cfg ε) (hc : c.caching = true) (hns : NoSi
   subst hs4 hn
   intro r hr
   simp only [List.nil_append] at hO2
+  have hr := mem_of_mem_dedupById _ _ hr
   rw [hO2] at hr
   have hr1 : r ∈ comp1 := (List.mem_filter.mp hr).1
   have hr0 := hr1
@@ -159,6 +160,21 @@ theorem remote_notification_not_local (c : Cfg ε) (hc : c.caching = true) (hns 
   rw [hstep] at h1
   simp only [Option.some.injEq, Prod.mk.injEq] at h1
   rw [h1.2]; exact h2
+
+/-- … and inside ONE notification no run is reported completed (or halted) twice, whatever the message
+repeats and whichever remote runs the local run of a singleton pattern stood in for (fix F18). -/
+theorem reported_once_per_notification (f : Rec ε → Run ε → Bool) (b : Bool) (c : Cfg ε) (s s' : DState ε)
+    (n : Notif ε) (comp halt upd : List (Rec ε))
+    (hstep : remoteStepG f b c s comp halt upd = some (s', n)) :
+    (n.completed.map (·.id)).Nodup ∧ (n.halted.map (·.id)).Nodup := by
+  unfold remoteStepG at hstep
+  simp only at hstep
+  split at hstep
+  · simp at hstep
+  · simp only [Option.some.injEq, Prod.mk.injEq] at hstep
+    obtain ⟨_, hn⟩ := hstep
+    subst hn
+    exact ⟨dedupById_nodup _, dedupById_nodup _⟩
 
 end Bobo.Decider
 
